@@ -198,6 +198,11 @@ func ParseSliceHeader(nalu []byte, spsMap map[uint32]*SPS, ppsMap map[uint32]*PP
 			sh.NumRefIdxL0ActiveMinus1 = uint32(pps.NumRefIdxI0DefaultActiveMinus1)
 			sh.NumRefIdxL1ActiveMinus1 = uint32(pps.NumRefIdxI1DefaultActiveMinus1)
 		}
+		// The values drive the loops of pred_weight_table
+		if sh.NumRefIdxL0ActiveMinus1 > 31 || sh.NumRefIdxL1ActiveMinus1 > 31 {
+			return nil, fmt.Errorf("num_ref_idx_active_minus1 (l0 %d, l1 %d) is not in range 0 to 31",
+				sh.NumRefIdxL0ActiveMinus1, sh.NumRefIdxL1ActiveMinus1)
+		}
 	}
 
 	// ref_pic_list_modification (nal unit type != 20 or 21) Section G.3.3.3.1.1
